@@ -187,7 +187,8 @@ Two states of the handler model stand for the two ends of one IKE_SA; a message 
 other end's handler is given (checked on the implementation for every protected request of every honest history: evidence
 `two_end_honest_requests_verbatim`).  `Agree a b`: both ESTABLISHED, the CHILD_SAs mirror images of each other as multisets of
 (inbound SPI, outbound SPI, protocol), each end's own inbound SPIs pairwise different (the kernel refuses a second SA with the
-same key), protocols AH or ESP.  Nothing is assumed about values coinciding *across* the ends. -/
+same key), protocols AH or ESP, and (`Paired`) two records that are images of each other as to SPIs and protocol are so as to suite,
+mode and traffic selectors (the selectors the other way round).  Nothing is assumed about values coinciding *across* the ends. -/
 
 /-- one delete exchange (`a` asks — hard expiry — `b` answers, `a` processes the answer): no handler raises, each end removes
     exactly the image of the other's CHILD_SA and asks its kernel to delete exactly that pair, `a` is ESTABLISHED again, `b` never
@@ -246,7 +247,7 @@ def exB : HSt :=
             ext := { conf := exConf, kids := [exKb1, exKb2] } }, succ := none, tape := { vals := [] } }
 
 example : Agree exA exB := by
-  refine ⟨rfl, rfl, ?_, by decide, by decide, by decide, by decide⟩
+  refine ⟨rfl, rfl, ?_, by decide, by decide, by decide, by decide, by unfold Paired; decide⟩
   show List.Perm _ _
   decide
 
@@ -322,7 +323,7 @@ def exKids (x : Option (HSt × HSt)) : Option (List (Bytes × Bytes × Nat) × L
 def exStates (x : Option (HSt × HSt)) : Option (List Nat × List Bool) :=
   x.map fun x => ([x.1.me.core.st, x.2.me.core.st], [x.1.tape.bad, x.2.tape.bad])
 
-example : Agree exA0 exB0 := ⟨rfl, rfl, List.Perm.nil, List.nodup_nil, List.nodup_nil, by decide, by decide⟩
+example : Agree exA0 exB0 := ⟨rfl, rfl, List.Perm.nil, List.nodup_nil, List.nodup_nil, by decide, by decide, fun _ h => by cases h⟩
 example : exKids (opRun 0 4 (exA0, exB0) [.create true exC0]) =
     some ([([7,7,7,7], [8,8,8,8], 3)], [([8,8,8,8], [7,7,7,7], 3)]) := by decide +kernel
 example : exKids (opRun 0 4 (exA0, exB0) [.create true exC0, .rekey false 0 exC1]) =
@@ -331,5 +332,11 @@ example : exKids (opRun 0 4 (exA0, exB0) [.create true exC0, .rekey false 0 exC1
   decide +kernel
 example : exStates (opRun 0 4 (exA0, exB0) [.create true exC0, .rekey false 0 exC1, .delete true 0]) =
     some ([10, 10], [false, false]) := by decide +kernel
+/-- … and the two records of the created CHILD_SA carry the same suite and mode and each other's selectors -/
+def exRich (x : Option (HSt × HSt)) : Option (List (List Transform × Nat × List TS × List TS)) :=
+  x.map fun x => x.1.me.ext.kids.map Child.rich ++ x.2.me.ext.kids.map Child.peerRich
+example : exRich (opRun 0 4 (exA0, exB0) [.create true exC0]) =
+    some [(exCP.transforms, 1, [exTs [10,0,0,1]], [exTs [10,0,0,2]]), (exCP.transforms, 1, [exTs [10,0,0,1]], [exTs [10,0,0,2]])] := by
+  decide +kernel
 
 end PyIkev2.Props.C09
